@@ -7,8 +7,8 @@ from vlib import readout as ro
 
 ID = 'C20'
 LEVEL = 'exploration'
-RULE = ('graphs over node sets {0}, {0,1}, {0,2} (gap), {0,1,2} (thorough: '
-        '{0,1,2,3} sampled): (G1) EVERY subset of the node pairs as '
+RULE = ('graphs over node sets {0}, {0,1}, {0,2} (gap), {0,1,2} (thorough: also '
+        '{0,1,2,3}, five nodes with a gap and labelled three-node graphs, as stride samples): (G1) EVERY subset of the node pairs as '
         'unlabelled edges; (G2) on {0,1} every assignment of {absent, 5 '
         'labels} to the 4 node pairs; (G3) parallel edges with every pair '
         'of labels; node labels from {none, y = 0, formula ~ x}; both '
@@ -46,6 +46,14 @@ def shards(tier, seed):
         for lo in range(seed % 64, 2 ** 16, 64 * 8):
             out.append(dict(kind='G1', nodes=[0, 1, 2, 3], lo=lo,
                             hi=lo + 8, seed=seed))
+        # five nodes (gap at 3): a stride sample of the 2^25 edge subsets
+        for i in range(0, 400, 8):
+            out.append(dict(kind='G1s', nodes=[0, 1, 2, 4, 5],
+                            idx=[i, i + 8], seed=seed))
+        # labelled edges on three nodes: a stride sample of the 6^9
+        # label assignments
+        for i in range(0, 2400, 48):
+            out.append(dict(kind='G2s', idx=[i, i + 48], seed=seed))
     return out
 
 
@@ -78,6 +86,40 @@ def cases(shard):
                            self_loops=sl, ignore_initial=ign,
                            initial=inits[(m + j + seed) % len(inits)],
                            receptive=False)
+    elif shard['kind'] == 'G1s':
+        nodes = shard['nodes']
+        pairs = list(itertools.product(nodes, nodes))
+        inits = _subsets(nodes)
+        stride = (2 ** len(pairs)) // 400
+        for i in range(*shard['idx']):
+            m = (i * stride + 12345 * (seed + 1)) % (2 ** len(pairs))
+            # keep graphs sparse enough to have dead ends and gaps
+            m &= (m >> 3) | (m << 2)
+            edges = [[u, v, None] for k, (u, v) in enumerate(pairs)
+                     if m >> k & 1]
+            owner, sl, ign = OPTS[i % len(OPTS)]
+            yield dict(nodes=nodes, edges=edges,
+                       nlabels={nodes[i % 5]: 1 + i % 2}, owner=owner,
+                       self_loops=sl, ignore_initial=ign,
+                       initial=inits[i % len(inits)], receptive=False)
+    elif shard['kind'] == 'G2s':
+        nodes = [0, 1, 2]
+        pairs = list(itertools.product(nodes, nodes))
+        stride = (6 ** 9) // 2400
+        for i in range(*shard['idx']):
+            mm = (i * stride + 777 * (seed + 1)) % (6 ** 9)
+            edges = []
+            for (u, v) in pairs:
+                lab = mm % 6
+                mm //= 6
+                # thin out: most pairs absent
+                if lab and (u + 2 * v + i) % 3:
+                    edges.append([u, v, lab])
+            owner, sl, ign = OPTS[i % len(OPTS)]
+            nl = {k: (i + k) % 3 for k in nodes if (i + k) % 3}
+            yield dict(nodes=nodes, edges=edges, nlabels=nl, owner=owner,
+                       self_loops=sl, ignore_initial=ign,
+                       initial=_subsets(nodes)[i % 7], receptive=False)
     elif shard['kind'] == 'G2':
         nodes = [0, 1]
         pairs = list(itertools.product(nodes, nodes))
